@@ -254,14 +254,75 @@ def syncer_family(run, prefixes):
     judge(run, cases, "TestSyncer", "SyncerTrace", prefixes, shards=8, pkg="synch")
 
 
+def sync_explore(run, prefixes, runs, procs=8):
+    """seeded random walks over the Syncer's own schedule space (sync yield points + getter calls as gates), judged by
+    SyncerTrace.tla without a model prediction"""
+    import concurrent.futures
+    pid = run.pid
+    wd = vlib.workdir(pid)
+    binp = os.path.join(wd, "synch_explore.test")
+    vlib.go_build_test("synch", binp)      # always rebuilt from the current tree
+    per = max(1, runs // procs)
+
+    def one(i):
+        tp, op = os.path.join(wd, "sx_trace_%d.ndjson" % i), os.path.join(wd, "sx_out_%d.ndjson" % i)
+        for f in (tp, op):
+            if os.path.exists(f):
+                os.remove(f)
+        r = vlib.run_bin(binp, ["-test.run", "^TestSyncExplore$", "-test.timeout", "3000s", "-test.count", "1"],
+                         env_extra={"VH_TRACE": tp, "VH_OUT": op, "VH_RUNS": per, "VH_IDBASE": 2000000 + i * per,
+                                    "VERIF_SEED": vlib.seed(), "GOLOG_LOG_LEVEL": "error"}, timeout=3100)
+        if r.returncode != 0:
+            tail = r.stdout[-2500:] + r.stderr[-2500:]
+            if "panic:" in tail and ("go-header" in tail or "/repo/" in tail) and "synctest" not in tail.split("panic:")[1][:300]:
+                return None, [], tail
+            raise vlib.Inconclusive("sync explore driver failed:\n" + tail)
+        tv = vlib.tlc(pid, "tvsx_%d" % i, "SyncerTrace", "SyncerTrace.cfg", workers=1, env_extra={"TRACE": tp}, export_key="FAIL", heap="2g")
+        if tv.error or not tv.ok:
+            raise vlib.Inconclusive("trace evaluation failed: %s" % ((tv.error or tv.stdout)[-2000:]))
+        return tv, vlib.read_ndjson(op), None
+
+    with concurrent.futures.ThreadPoolExecutor(max_workers=procs) as ex:
+        outs = list(ex.map(one, range(procs)))
+    cnt = collections.Counter()
+    results = []
+    for tv, recs, crash in outs:
+        if crash:
+            run.violation({"family": pid, "symptom": "process_crash", "mode": "explore"}, "free schedule crashed inside go-header: " + crash[-1500:])
+            continue
+        cfgs = {r["id"]: r.get("detail", "") for r in recs}
+        for r in recs:
+            r["from_tlc"] = False
+            r.pop("detail", None)
+        results.extend(recs)
+        run.cov["states"] += tv.distinct
+        run.cov["transitions"] += tv.generated
+        for f in tv.exported:
+            for p in f["preds"]:
+                if not p.startswith(tuple(prefixes)):
+                    continue
+                cnt[p] += 1
+                run.violation({"family": pid, "pred": p, "mode": "explore"},
+                              "clause %s fails at step %s of free schedule %s (seed %s): %s" % (p, f.get("i"), f["tr"], vlib.seed(), cfgs.get(f["tr"], "")))
+    from .common import fold
+    fold(run, results)
+    run.cov["free_schedules"] = per * procs
+    fc = dict(run.cov.get("failed_clauses", {}))
+    for k2, v2 in cnt.items():
+        fc[k2] = fc.get(k2, 0) + v2
+    run.cov["failed_clauses"] = fc
+
+
 @register("C07")
 def c07(run):
     syncer_family(run, ["C07_"])
+    sync_explore(run, ["C07_"], 1600 if run.tier == "quick" else 80000)
 
 
 @register("C03")
 def c03(run):
     syncer_family(run, ["C03_"])
+    sync_explore(run, ["C03_"], 1600 if run.tier == "quick" else 80000)
 
 
 def apalache_tail(run):
